@@ -1185,5 +1185,12 @@ def c13_inputs_converted(ctx):
     return _r(ctx)
 
 
-RULES = [c13_inputs_converted, vertex_curvature, mirror_index, c01_media_chain, no_stale, records, chief_ray, parax_eq, invariant_step, parax_linear, crossing, signed_return,
+def c01_remove_relink(ctx):
+    """shared with C01: the media the paraxial trace uses are the ones of the
+    prescription after a surface was removed"""
+    from .C01 import remove_relink as _r
+    return _r(ctx)
+
+
+RULES = [c01_remove_relink, c13_inputs_converted, vertex_curvature, mirror_index, c01_media_chain, no_stale, records, chief_ray, parax_eq, invariant_step, parax_linear, crossing, signed_return,
          fno_epd, mag_inv, inverted4, object_position]
